@@ -173,3 +173,26 @@ neu("option-sentinel-refactor", [
     (SRV, "        if client.latest_version_id != NIL_VERSION_ID\n            && parent_version_id != client.latest_version_id\n        {\n            log::debug!(\"add_version request rejected: mismatched latest_version_id\");\n            return Ok((\n                AddVersionResult::ExpectedParentVersion(client.latest_version_id),\n                SnapshotUrgency::None,\n            ));\n        }",
      "        if let Some(latest_version_id) = some_version(client.latest_version_id) {\n            if parent_version_id != latest_version_id {\n                log::debug!(\"add_version request rejected: mismatched latest_version_id\");\n                return Ok((\n                    AddVersionResult::ExpectedParentVersion(latest_version_id),\n                    SnapshotUrgency::None,\n                ));\n            }\n        }"),
 ], "NIL sentinel comparisons replaced by a helper returning Option and matches on it (equivalent in both operations)")
+
+
+# ---- independently written behaviour-preserving refactorings (sub-agents given only the repository; see
+# neutral_patches/*.README.md): each is a unified diff that builds, is clippy-clean and passes the 65 tests unchanged.
+import glob as _glob
+import os as _os
+_PD = _os.path.join(_os.path.dirname(_os.path.dirname(_os.path.abspath(__file__))), "neutral_patches")
+_PATCH_NOTES = {
+    "NA1": "core: urgency computation extracted to Server::snapshot_urgency", "NA2": "core: if-let / let-else / guarded match restructuring",
+    "NA3": "core: private const, fns and locals renamed", "NA4": "core: generic threshold helper, Ord::max",
+    "NB1": "sqlite: snapshot_from_columns helper out of the row closure", "NB2": "sqlite: get_snapshot_data with let-else + bail",
+    "NB3": "sqlite: query helper renamed, client_id parameter dropped", "NB4": "sqlite: map/map_err idioms, array instead of vec!",
+    "NC1": "inmemory: let-else control flow", "NC2": "inmemory: Inner::empty() and key() helpers", "NC3": "inmemory: private fields renamed",
+    "NC4": "inmemory: HashMap::entry, is_some_and, and_then+cloned", "ND1": "add_snapshot: async body-reading helper",
+    "ND2": "add_version: loop { match } restructured with break values", "ND3": "add_version: header value mapping function",
+    "ND4": "handlers: try_next().await? and renamed private consts", "NE1": "api: let-else + match guard in client_id_header",
+    "NE2": "get_child_version: map_err closure + separate match", "NE3": "get_snapshot: response helper + map/ok_or_else",
+    "NE4": "api: private items renamed", "NF1": "lib: default_headers() helper, locals", "NF2": "bin: private fn and fields renamed",
+    "NF3": "bin: argument-builder helper fns", "NF4": "bin: destructuring let, try_fold over listen addresses",
+}
+for _p in sorted(_glob.glob(_os.path.join(_PD, "*.diff"))):
+    _n = _os.path.basename(_p)[:-5]
+    neu("patch-" + _n, [("@patch", _p, None)], "independent refactoring: " + _PATCH_NOTES.get(_n, _n))
